@@ -108,10 +108,10 @@ def with_missing(cells, marker="none"):
                 col[r] = None
                 df[c] = col
         return df
-    if marker == "big":  # hundreds of rows, a single incomplete one
-        out = pd.concat([clean()] * 50, ignore_index=True)
+    if marker in ("big", "huge"):  # hundreds of rows, a single incomplete one; "huge": 1500 rows, the incomplete row near the end
+        out = pd.concat([clean()] * (50 if marker == "big" else 250), ignore_index=True)
         for r, c in cells:
-            rr = r + 6 * 20  # somewhere in the middle
+            rr = r + (6 * 20 if marker == "big" else 6 * 248)  # somewhere in the middle / beyond the last multiple of 1024
             if c in NUMERIC:
                 out[c] = out[c].astype(float)
                 out.loc[rr, c] = np.nan
@@ -192,6 +192,8 @@ def units(tier, seed):
         u.append([{"kind": "patterns", "i": i, "tier": "single", "marker": "ordcat"}])
     for i in (0, 2, 10, 13, 17, 21, 24):
         u.append([{"kind": "patterns", "i": i, "tier": "single", "marker": "big"}])
+    for i in (0, 10, 13, 17, 24):
+        u.append([{"kind": "patterns", "i": i, "tier": "single", "marker": "huge"}])
     for i in range(len(POOL)):
         u.append([{"kind": "patterns", "i": i, "tier": tier, "marker": m} for m in (["none"] if tier == "quick" else ["none", "nan"])])
     return u
@@ -226,9 +228,9 @@ def check_patterns(case, acc):
         build(case["after"], clean())  # an earlier, unrelated design in the same process
     refcache = {}
     clean_df = clean()
-    ref_frame = with_missing([], "ordcat") if case["marker"] == "ordcat" else with_missing([], "big") if case["marker"] == "big" else with_missing([], "intvals") if case["marker"] == "nullable-int" else clean_df
+    ref_frame = with_missing([], "ordcat") if case["marker"] == "ordcat" else with_missing([], case["marker"]) if case["marker"] in ("big", "huge") else with_missing([], "intvals") if case["marker"] == "nullable-int" else clean_df
     nrows = len(ref_frame)
-    off = 120 if case["marker"] == "big" else 0
+    off = 120 if case["marker"] == "big" else 6 * 248 if case["marker"] == "huge" else 0
     try:
         full = mats(build(f, ref_frame))
     except Exception:
